@@ -20,6 +20,8 @@ def finalOf : List Chunk → Option (Bool × Nat × Nat × Nat)
 /-- two chunk lists are splits of the same output -/
 def SameOutput (a b : List Chunk) : Prop := texts a = texts b ∧ finalOf a = finalOf b
 
+instance (a b : List Chunk) : Decidable (SameOutput a b) := by unfold SameOutput; infer_instance
+
 /-! ## /api/generate -/
 
 /-- **Stream concatenation = non-stream reply (generate).**  For every chunk list: the reply of
@@ -125,13 +127,14 @@ theorem chat_error (parse : Bytes → List Call) (tools : Bool) (cs : List Chunk
 
 /-! ## /api/chat with tools -/
 
-/-- **Guard: `parse` is prefix-stable on the split** — no accumulated prefix at a chunk boundary
-    before the last chunk parses as tool calls. -/
-def NoEarlyParse (parse : Bytes → List Call) (init : List Chunk) : Prop :=
-  ∀ k, k < init.length → parse (texts (init.take (k + 1))) = []
+/-- **Guard: `parse` is prefix-stable on the split** — whenever the text accumulated at a chunk
+    boundary parses as tool calls, only empty chunks follow (i.e. no PROPER prefix of the output
+    parses at a chunk boundary); and the empty text does not parse. -/
+def PrefixStable (parse : Bytes → List Call) (cs : List Chunk) : Prop :=
+  parse [] = [] ∧ ∀ k, k < cs.length → parse (texts (cs.take (k + 1))) ≠ [] → texts (cs.drop (k + 1)) = []
 
-instance (parse : Bytes → List Call) (init : List Chunk) : Decidable (NoEarlyParse parse init) := by
-  unfold NoEarlyParse; infer_instance
+instance (parse : Bytes → List Call) (cs : List Chunk) : Decidable (PrefixStable parse cs) := by
+  unfold PrefixStable; infer_instance
 
 instance (cs : List Chunk) : Decidable (NoneDone cs) := by
   unfold NoneDone; infer_instance
@@ -147,42 +150,113 @@ theorem chatOnce_ok_snoc (parse : Bytes → List Call) (tools : Bool) (init : Li
     rw [List.cons_append, chatOnce_ok_cons]
     simp only [lastOr_append_singleton]
 
+/-- aggregated view of a chat stream: concatenated contents, concatenated calls, last message -/
+def aggContent (ms : List ChatMsg) : Bytes := (ms.map (·.content)).flatten
+def aggCalls (ms : List ChatMsg) : List Call := (ms.map (·.calls)).flatten
+
+theorem texts_eq_nil_cons {c : Chunk} {cs : List Chunk} (h : texts (c :: cs) = []) :
+    c.content = [] ∧ texts cs = [] := by
+  simpa using h
+
+/-- after the buffer was reset, empty chunks produce nothing until the done chunk, whose message is
+    empty -/
+theorem chatCallback_empty_tail (parse : Bytes → List Call) (hp : parse [] = []) (init : List Chunk) (l : Chunk)
+    (idx : Nat) (hnd : NoneDone init) (hl : l.done = true) (he : texts (init ++ [l]) = []) :
+    chatCallback parse true (init ++ [l]) [] idx = [{ content := [], calls := [], info := chunkInfo l }] := by
+  induction init with
+  | nil =>
+    have hc : l.content = [] := (texts_eq_nil_cons he).1
+    simp [chatCallback, hc, hp, hl]
+  | cons c cs ih =>
+    obtain ⟨hc, he'⟩ := texts_eq_nil_cons he
+    have hd : c.done = false := hnd c (by simp)
+    simp only [List.cons_append, chatCallback, hc, List.append_nil, hp, hd]
+    simpa using ih (fun x hx => hnd x (by simp [hx])) he'
+
+/-- the buffered callback from a state in which no call was sent yet -/
+theorem chatCallback_buffered_agg (parse : Bytes → List Call) (hp : parse [] = []) (init : List Chunk) (l : Chunk)
+    (sb : Bytes) (hnd : NoneDone init) (hl : l.done = true)
+    (hg : ∀ k, k < (init ++ [l]).length → parse (sb ++ texts ((init ++ [l]).take (k + 1))) ≠ [] →
+      texts ((init ++ [l]).drop (k + 1)) = []) (d : ChatMsg) :
+    let ms := chatCallback parse true (init ++ [l]) sb 0
+    let t := sb ++ texts (init ++ [l])
+    aggContent ms = (if (parse t).isEmpty then t else [])
+    ∧ aggCalls ms = setIdx 0 (parse t)
+    ∧ (lastOr d ms).info = chunkInfo l := by
+  induction init generalizing sb d with
+  | nil =>
+    simp only [List.nil_append, chatCallback, Bool.not_true, Bool.false_eq_true, ↓reduceIte, hl, texts_cons,
+      texts_nil, List.append_nil]
+    by_cases h : (parse (sb ++ l.content)).isEmpty = true
+    · have h' : parse (sb ++ l.content) = [] := List.isEmpty_iff.mp h
+      simp [h', aggContent, aggCalls, setIdx]
+    · simp [h, aggContent, aggCalls]
+  | cons c cs ih =>
+    have hd : c.done = false := hnd c (by simp)
+    have hnd' : NoneDone cs := fun x hx => hnd x (by simp [hx])
+    by_cases h : (parse (sb ++ c.content)).isEmpty = true
+    · -- nothing parses yet: only accumulate
+      have h' : parse (sb ++ c.content) = [] := List.isEmpty_iff.mp h
+      have hg' : ∀ k, k < (cs ++ [l]).length → parse ((sb ++ c.content) ++ texts ((cs ++ [l]).take (k + 1))) ≠ [] →
+          texts ((cs ++ [l]).drop (k + 1)) = [] := by
+        intro k hk hne
+        have := hg (k + 1) (by simp at hk ⊢; omega) (by simpa [List.append_assoc] using hne)
+        simpa using this
+      have := ih (sb ++ c.content) hnd' hg' d
+      simp only [List.cons_append, chatCallback, Bool.not_true, Bool.false_eq_true, ↓reduceIte, h', hd,
+        List.isEmpty_nil, Bool.not_true]
+      simpa [List.append_assoc] using this
+    · -- first parse: everything that follows is empty
+      have hne : parse (sb ++ c.content) ≠ [] := fun e => h (by simp [e])
+      have hrest : texts (cs ++ [l]) = [] := by
+        have := hg 0 (by simp) (by simpa using hne)
+        simpa using this
+      have htail := chatCallback_empty_tail parse hp cs l (0 + (parse (sb ++ c.content)).length) hnd' hl hrest
+      simp only [List.cons_append, chatCallback, Bool.not_true, Bool.false_eq_true, ↓reduceIte, h,
+        Bool.not_false, htail, texts_cons, hrest, List.append_nil]
+      simp [aggContent, aggCalls, h]
+
 /-- **Streamed = non-streamed with tools, PARTIAL.**  If the runner follows its protocol (content
-    chunks, then one done chunk) and `parse` is prefix-stable on the split, the stream consists of
-    exactly one message, which has the text, the tool calls (up to the `index` field), the reason
-    and the counts of the `stream:false` reply.
-    What is missing for the full statement: without `NoEarlyParse` it is FALSE (`F17a_…` below), and
-    the `index` fields agree only for at most one call (`tools_index`). -/
+    chunks, then one done chunk) and `parse` is prefix-stable on the split, the aggregated stream
+    (concatenated contents, concatenated tool calls, last message's reason and counts) equals the
+    `stream:false` reply — the calls up to their `index` field: streamed calls are numbered from 0.
+    What is missing for the full statement: without `PrefixStable` it is FALSE (`F17a_…` below), and
+    the `index` fields agree only for at most one call (`tools_index`, `F17b_…`). -/
 theorem tools_equiv_partial (parse : Bytes → List Call) (init : List Chunk) (l : Chunk)
-    (hnd : NoneDone init) (hl : l.done = true) (hg : NoEarlyParse parse init) :
-    ∃ m o, chatStream parse true (init ++ [l]) .ok = [.msg m]
-      ∧ chatOnce parse true (init ++ [l]) .ok = .ok o
-      ∧ m.content = o.content
-      ∧ m.calls.map eraseIdx = o.calls.map eraseIdx
-      ∧ m.calls = setIdx 0 o.calls
-      ∧ m.info = o.info := by
-  have hq := chatCallback_buffered_quiet parse init [l] [] 0 hnd (by
-    intro k hk; simpa using hg k hk)
-  simp only [chatStream, chatChan, hq, endItems, List.append_nil, List.nil_append]
-  rw [chatOnce_ok_snoc]
-  have ht : texts (init ++ [l]) = texts init ++ l.content := by simp [texts_append]
-  simp only [ht, chatCallback, Bool.not_true, Bool.false_eq_true, ↓reduceIte, hl, Bool.true_and]
-  by_cases hp : (parse (texts init ++ l.content)).isEmpty = true
-  · simp [hp, setIdx]
-  · simp only [hp, Bool.not_false, ↓reduceIte, Bool.false_eq_true]
-    exact ⟨_, _, rfl, rfl, rfl, by rw [setIdx_erase], rfl, rfl⟩
+    (hnd : NoneDone init) (hl : l.done = true) (hg : PrefixStable parse (init ++ [l])) :
+    let st := msgsOf (chatStream parse true (init ++ [l]) .ok)
+    ∃ o, chatOnce parse true (init ++ [l]) .ok = .ok o
+      ∧ aggContent st = o.content
+      ∧ (aggCalls st).map eraseIdx = o.calls.map eraseIdx
+      ∧ aggCalls st = setIdx 0 o.calls
+      ∧ (lastOr default st).info = o.info
+      ∧ errsOf (chatStream parse true (init ++ [l]) .ok) = [] := by
+  intro st
+  have hst : st = chatCallback parse true (init ++ [l]) [] 0 := by
+    simp only [st, chatStream, chatChan]; exact msgsOf_chan _ _
+  obtain ⟨h1, h2, h3⟩ := chatCallback_buffered_agg parse hg.1 init l [] hnd hl (by
+    intro k hk hne; exact hg.2 k hk (by simpa using hne)) default
+  simp only [List.nil_append] at h1 h2 h3
+  rw [chatOnce_ok_snoc, hst]
+  have herr : errsOf (chatStream parse true (init ++ [l]) .ok) = [] := by
+    simp only [chatStream, chatChan]; rw [errsOf_chan]
+  by_cases hp : (parse (texts (init ++ [l]))).isEmpty = true
+  · have hp' : parse (texts (init ++ [l])) = [] := List.isEmpty_iff.mp hp
+    refine ⟨_, by simp only [hp, Bool.not_true, Bool.and_false, Bool.false_eq_true, ↓reduceIte]; rfl, ?_⟩
+    simp [h1, h2, h3, hp, hp', setIdx, herr]
+  · refine ⟨_, by simp only [hp, Bool.not_false, Bool.and_true, ↓reduceIte]; rfl, ?_⟩
+    simp [h1, h2, h3, hp, setIdx_erase, herr]
 
 /-- **The `index` fields**: streamed calls are numbered 0,1,2,…; the `stream:false` reply leaves
     every index at the parser's 0.  (So they agree iff there is at most one call.) -/
 theorem tools_index (parse : Bytes → List Call) (hz : ∀ s, ∀ c ∈ parse s, c.index = 0)
     (init : List Chunk) (l : Chunk)
-    (hnd : NoneDone init) (hl : l.done = true) (hg : NoEarlyParse parse init) :
-    ∃ m o, chatStream parse true (init ++ [l]) .ok = [.msg m]
-      ∧ chatOnce parse true (init ++ [l]) .ok = .ok o
-      ∧ m.calls.map (·.index) = List.range' 0 o.calls.length
+    (hnd : NoneDone init) (hl : l.done = true) (hg : PrefixStable parse (init ++ [l])) :
+    ∃ o, chatOnce parse true (init ++ [l]) .ok = .ok o
+      ∧ (aggCalls (msgsOf (chatStream parse true (init ++ [l]) .ok))).map (·.index) = List.range' 0 o.calls.length
       ∧ o.calls.map (·.index) = List.replicate o.calls.length 0 := by
-  obtain ⟨m, o, hs, ho, _, _, hc, _⟩ := tools_equiv_partial parse init l hnd hl hg
-  refine ⟨m, o, hs, ho, ?_, ?_⟩
+  obtain ⟨o, ho, _, _, hc, _⟩ := tools_equiv_partial parse init l hnd hl hg
+  refine ⟨o, ho, ?_, ?_⟩
   · rw [hc, setIdx_index]
   · rw [chatOnce_ok_snoc] at ho
     have : ∀ c ∈ o.calls, c.index = 0 := by
@@ -517,7 +591,7 @@ theorem F17a_split_loses_call :
     ∧ (chatOnce parseF17 true [nd (pieceA ++ pieceB1), nd pieceB2, fin] .ok).toOption.map (·.calls) = some [callA, callB]
     ∧ ((msgsOf (chatStream parseF17 true [nd (pieceA ++ pieceB1 ++ pieceB2), fin] .ok)).map (·.calls)).flatten
         = [callA, { callB with index := 1 }]
-    ∧ ¬ NoEarlyParse parseF17 [nd (pieceA ++ pieceB1), nd pieceB2] := by
+    ∧ ¬ PrefixStable parseF17 [nd (pieceA ++ pieceB1), nd pieceB2, fin] := by
   decide
 
 /-- **F17b**: even on a split where the guard holds, the streamed calls are indexed 0,1 and the
@@ -527,7 +601,7 @@ theorem F17b_index_mismatch :
         (fun m => m.calls.map (·.index))).flatten = [0, 1]
     ∧ (chatOnce parseF17 true [nd (pieceA ++ pieceB1 ++ pieceB2), fin] .ok).toOption.map
         (fun m => m.calls.map (·.index)) = some [0, 0]
-    ∧ NoEarlyParse parseF17 [nd (pieceA ++ pieceB1 ++ pieceB2)] := by
+    ∧ PrefixStable parseF17 [nd (pieceA ++ pieceB1 ++ pieceB2), fin] := by
   decide
 
 /-- **F17c**: runner fails after one chunk: the native stream ends with the error, the OpenAI stream
@@ -560,8 +634,12 @@ example : SameOutput [nd ([72, 101, 108]), nd ([108, 111]), fin] [nd ([72]), nd 
 
 /-- the guard of `tools_equiv_partial` holds on a split of a real tool-call output into three
     chunks, and the conclusion is about a non-empty call list -/
-example : NoneDone [nd (pieceA ++ pieceB1 ++ pieceB2)] ∧ NoEarlyParse parseF17 [nd (pieceA ++ pieceB1 ++ pieceB2)]
-    ∧ parseF17 (texts ([nd (pieceA ++ pieceB1 ++ pieceB2)] ++ [fin])) = [callA, callB] := by
+example : NoneDone [nd pieceA, nd [], nd (pieceB1 ++ pieceB2)]
+    ∧ ¬ PrefixStable parseF17 ([nd pieceA, nd [], nd (pieceB1 ++ pieceB2)] ++ [fin]) := by decide
+
+example : NoneDone [nd (pieceA ++ pieceB1 ++ pieceB2), nd []]
+    ∧ PrefixStable parseF17 ([nd (pieceA ++ pieceB1 ++ pieceB2), nd []] ++ [fin])
+    ∧ parseF17 (texts ([nd (pieceA ++ pieceB1 ++ pieceB2), nd []] ++ [fin])) = [callA, callB] := by
   decide
 
 end OllamaVerif.C17
